@@ -184,7 +184,7 @@ def _history_case(rng):
                 if new and isinstance(new[-1], int) and nxt < 10 ** 6:
                     nxt = new[-1] + 1
             else:
-                steps.append(('read', rng.choice(['values', 'len', 'iter', 'loc', 'contains', 'copy', 'positions'])))
+                steps.append(('read', rng.choice(['values', 'len', 'iter', 'loc', 'contains', 'copy', 'positions', 'sort', 'sort', 'reversed_sel'])))
         return {'t': 'history', 'kind': 'auto', 'start': start, 'steps': steps}
     pool = L.flat_labels(kind, 16, rng)
     n0 = rng.randint(0, min(4, len(pool)))
@@ -209,7 +209,8 @@ def _history_case(rng):
             steps.append(('extend_partial_dup', [rest[i], rng.choice(held)]))
             i += 1
         else:
-            steps.append(('read', rng.choice(['values', 'len', 'iter', 'loc', 'contains', 'copy', 'positions', 'static_init', 'go_init', 'rename'])))
+            steps.append(('read', rng.choice(['values', 'len', 'iter', 'loc', 'contains', 'copy', 'positions', 'static_init', 'go_init', 'rename',
+                                              'sort', 'reversed_sel'])))
     return {'t': 'history', 'kind': kind, 'start': start, 'steps': steps}
 
 
@@ -904,6 +905,24 @@ def _check_history(case, ctx):
                 derived.append((d, list(model)))
                 if not bijection(ctx, d, list(model), dict(sk, derived=what), f'step{si}:derived:{what}'):
                     return
+            elif what in ('sort', 'reversed_sel') and not hier and model:
+                # derivations that take their order / positions from the (possibly stale) position cache
+                if what == 'sort':
+                    asc = si % 2 == 0
+                    try:
+                        want = sorted(model, reverse=not asc)
+                    except TypeError:
+                        want = None
+                    if want is not None and all(x == x for x in model):
+                        d = idx.sort(ascending=asc)
+                        derived.append((d, want))
+                        if not bijection(ctx, d, list(want), dict(sk, derived=what), f'step{si}:derived:{what}'):
+                            return
+                else:
+                    d = idx.iloc[::-1]
+                    derived.append((d, list(model)[::-1]))
+                    if not bijection(ctx, d, list(model)[::-1], dict(sk, derived=what), f'step{si}:derived:{what}'):
+                        return
             elif what == 'positions':
                 idx.positions
             elif what == 'depth_values' and hier and model:
